@@ -15,6 +15,7 @@ import (
 	"net/textproto"
 	"net/url"
 	"reflect"
+	"runtime"
 	"sort"
 	"strconv"
 	"strings"
@@ -71,12 +72,26 @@ type KV struct {
 	V Doc    `json:"v"`
 }
 
+type Repeat struct {
+	Key string `json:"key"`
+	Val string `json:"val"`
+	N   int    `json:"n"`
+}
+
+// Case is one request, or (mode "seq") a sequence of requests run in order in this process.
 type Case struct {
 	ID   int     `json:"id"`
 	Mode string  `json:"mode"`
 	Type Type    `json:"type"`
 	Doc  *Doc    `json:"doc"`
 	Raw  *string `json:"raw"`
+	// httpx modes only
+	Direct bool    `json:"direct"` // call ParseJsonBody / ParseForm / ParsePath / ParseHeaders instead of Parse
+	Pad    int     `json:"pad"`    // json body: insert that many spaces after the first byte
+	Repeat *Repeat `json:"repeat"` // form: add n more values for a key
+	// sequences
+	Steps  []Case `json:"steps"`
+	Procs1 bool   `json:"procs1"` // run the sequence under GOMAXPROCS(1)
 }
 
 type Out struct {
@@ -86,6 +101,7 @@ type Out struct {
 	Val     any    `json:"val,omitempty"`
 	Tag     string `json:"tag,omitempty"`
 	Fail    string `json:"fail,omitempty"` // executor problem (bad case), not an observation
+	Steps   []Out  `json:"steps,omitempty"`
 }
 
 var prim = map[string]reflect.Type{
@@ -420,6 +436,23 @@ func tagKeyOf(mode string) string {
 
 func runCase(c Case) (out Out) {
 	out.ID = c.ID
+	if c.Mode == "seq" {
+		if c.Procs1 {
+			old := runtime.GOMAXPROCS(1)
+			defer runtime.GOMAXPROCS(old)
+		}
+		for i, st := range c.Steps {
+			st.ID = i
+			o := runCase(st)
+			if o.Fail != "" {
+				out.Fail = fmt.Sprintf("step %d: %s", i, o.Fail)
+				return
+			}
+			out.Steps = append(out.Steps, o)
+		}
+		out.Verdict = "seq"
+		return
+	}
 	tagKey := tagKeyOf(c.Mode)
 	if tagKey == "" {
 		out.Fail = "unknown mode " + c.Mode
@@ -506,7 +539,14 @@ func runCase(c Case) (out Out) {
 				out.Fail = "httpx-json mode needs raw"
 				return
 			}
-			r = httptest.NewRequest(http.MethodPost, "/x", bytes.NewReader([]byte(*c.Raw)))
+			body := []byte(*c.Raw)
+			if c.Pad > 0 && len(body) > 0 {
+				padded := make([]byte, 0, len(body)+c.Pad)
+				padded = append(padded, body[0])
+				padded = append(padded, bytes.Repeat([]byte{' '}, c.Pad)...)
+				body = append(padded, body[1:]...)
+			}
+			r = httptest.NewRequest(http.MethodPost, "/x", bytes.NewReader(body))
 			r.Header.Set("Content-Type", "application/json")
 		case "httpx-form":
 			sm, order, err := stringMap(c.Doc)
@@ -518,6 +558,11 @@ func runCase(c Case) (out Out) {
 			for _, k := range order {
 				for _, v := range sm[k] {
 					q.Add(k, v)
+				}
+			}
+			if c.Repeat != nil {
+				for i := 0; i < c.Repeat.N; i++ {
+					q.Add(c.Repeat.Key, c.Repeat.Val)
 				}
 			}
 			r = httptest.NewRequest(http.MethodGet, "/x?"+q.Encode(), nil)
@@ -546,6 +591,18 @@ func runCase(c Case) (out Out) {
 			}
 		}
 		call = func() error { return httpx.Parse(r, target.Interface()) }
+		if c.Direct {
+			switch c.Mode {
+			case "httpx-json":
+				call = func() error { return httpx.ParseJsonBody(r, target.Interface()) }
+			case "httpx-form":
+				call = func() error { return httpx.ParseForm(r, target.Interface()) }
+			case "httpx-path":
+				call = func() error { return httpx.ParsePath(r, target.Interface()) }
+			case "httpx-header":
+				call = func() error { return httpx.ParseHeaders(r, target.Interface()) }
+			}
+		}
 	}
 
 	func() {
